@@ -1,4 +1,5 @@
 """C16 - TCP acknowledgements are cumulative and correct; all data gets through."""
+from mc import explore
 from mc.explore import Result
 from mc.kclient import INF
 
@@ -51,8 +52,9 @@ def plan(tier, seed):
             for size in (300, 1500):
                 for pat in ([0], [0] * 17 + [1], [0] * 23 + [2] + [0] * 7 + [1], [0] * 40 + [1, 1, 0, 0, 0, 2]):
                     cfgs.append(dict(kind="e2e", cc=cc, delays=delays, est=est, size=size, K=10 ** 6, long={"pattern": pat}))
+    ndebug = explore.add_debug_variants(cfgs)      # the same with sender and sink constructed with debug=True
     return {"cfgs": cfgs, "budget": 3 if quick else 4,
-            "bound": "48 long flows (300/1500 MSS) under periodic fault patterns; sink: sequences of <=%d segments; end to end: flows of 1..%d MSS, path delays (1,1),(1,3),(3,5),(.3,.1),(.1,.2),(0,0), initial RTT estimate .1/.25/.3/.5/.7/4, "
+            "bound": ("%d configurations repeated with debug=True; " % ndebug) + "48 long flows (300/1500 MSS) under periodic fault patterns; sink: sequences of <=%d segments; end to end: flows of 1..%d MSS, path delays (1,1),(1,3),(3,5),(.3,.1),(.1,.2),(0,0), initial RTT estimate .1/.25/.3/.5/.7/4, "
                      "<=%d faults (drop, or delivery delayed by 4) among the first %d data / ACK transmissions" % (6 if quick else 7, 6 if quick else 8, 3 if quick else 4, 12 if quick else 20)}
 
 
